@@ -100,7 +100,7 @@ MSGS = ["tools.msg", "cmdarg.msg", "ioerrs.msg"]
 SIZES = {  # tier -> sample sizes
     "quick": dict(generic=6000, data=900, data_cpus=18, plant=100, hist=1700, toolruns=650, hex=120, trace=1500,
                   t_asl=12, t_tool=1.5),
-    "thorough": dict(generic=60000, data=20000, data_cpus=10 ** 9, plant=3000, hist=30000, toolruns=10 ** 9, hex=10 ** 9,
+    "thorough": dict(generic=50000, data=20000, data_cpus=10 ** 9, plant=3000, hist=20000, toolruns=10 ** 9, hex=10 ** 9,
                      trace=20000, t_asl=30, t_tool=3),
 }
 
